@@ -66,7 +66,9 @@ def run(ctx):
                         o.integrate()
                     elif history == "continued":
                         o.integrate(t0 + (tf - t0) * 0.35)
+                        _ = o.sol(np.array(o.t))            # an array query while steps are still being added
                         o.integrate(t0 + (tf - t0) * 0.8)
+                        _ = o.sol(np.array(o.t)[-3:])
                         o.integrate()
                     elif history == "event-resumed":
                         o.integrate(events=[ev_term])
